@@ -492,12 +492,23 @@ func (c *FuncCtx) binop(st *State, op token.Token, l, r *Val, pos token.Pos, res
 	case token.LSS, token.LEQ, token.GTR, token.GEQ:
 		o := map[token.Token]string{token.LSS: "<", token.LEQ: "<=", token.GTR: ">", token.GEQ: ">="}[op]
 		if l.Sort == "String" {
-			so := map[token.Token]string{token.LSS: "str.<", token.LEQ: "str.<="}[op]
-			if so != "" {
-				return &Val{T: tBool, S: app(so, l.S, r.S), Sort: "Bool"}
+			// string ordering is an uninterpreted total preorder symbol: the
+			// solvers' string theory combined with quantifiers is far too slow,
+			// and nothing verified here depends on how strings compare
+			c.eng.declareUF("str_le", "(declare-fun str_le (String String) Bool)")
+			le := func(a, b string) string { return app("str_le", a, b) }
+			var t string
+			switch op {
+			case token.LEQ:
+				t = le(l.S, r.S)
+			case token.GEQ:
+				t = le(r.S, l.S)
+			case token.LSS:
+				t = mkNot(le(r.S, l.S))
+			case token.GTR:
+				t = mkNot(le(l.S, r.S))
 			}
-			so = map[token.Token]string{token.GTR: "str.<", token.GEQ: "str.<="}[op]
-			return &Val{T: tBool, S: app(so, r.S, l.S), Sort: "Bool"}
+			return &Val{T: tBool, S: t, Sort: "Bool"}
 		}
 		return &Val{T: tBool, S: app(o, l.S, r.S), Sort: "Bool"}
 	case token.ADD:
